@@ -8,7 +8,7 @@
 From Coq Require Import ZArith List Bool Lia.
 Import ListNotations.
 From Osmo Require Import Gen.C09_consts C09.Model C09.Spec C09.ProofsCoins C09.ProofsDistr C09.ProofsLoop
-  C09.ProofsInv C09.ProofsLife C09.ProofsShare C09.ProofsShare2 C09.Proofs.
+  C09.ProofsInv C09.ProofsLife C09.ProofsShare C09.ProofsShare2 C09.ProofsLive C09.Proofs.
 Open Scope Z_scope.
 
 (* ---- never over-pays: DistributedCoins <= Coins coin-wise, for every gauge, after every history *)
@@ -219,6 +219,21 @@ Theorem C09_epoch_aborted_witness :
   after_epoch_end w_cfg w3_thr w3_pre = Err E_EPOCH /\ 0 < ideal_credit w_cfg w3_thr w3_pre 1 0.
 Proof. exact witness_F3. Qed.
 Print Assumptions C09_epoch_aborted_witness.
+
+Theorem C09_epoch_succeeds_refuted : ~ C09_epoch_succeeds_full.
+Proof.
+  intros H. destruct (H w_cfg w_funds w3_ops w3_thr w_cfg_ok w3_thr_positive) as (s' & E).
+  fold w3_pre in E. destruct witness_F3 as [W _]. rewrite W in E. clear - E. discriminate E.
+Qed.
+Print Assumptions C09_epoch_succeeds_refuted.
+
+(* PROVED PART, and exact characterisation of C09-F3: an error of the injected min-value quote is the ONLY way an epoch
+   end can fail - without one, AfterEpochEnd succeeds after every history (no Coins.Sub panic, no failing send, no
+   inconsistent reference list, no "gauge is not active") *)
+Theorem C09_epoch_succeeds_partial : forall cfg funds ops thr, cfg_ok cfg -> thr_no_error thr ->
+  exists s', after_epoch_end cfg thr (run cfg (init_state funds) ops) = Ok s'.
+Proof. exact epoch_fails_only_by_quote_error. Qed.
+Print Assumptions C09_epoch_succeeds_partial.
 
 (* ---- non-vacuity: a history that meets the hypothesis of the conditional finishing theorem, on which the gauge
    really pays twice and finishes with 2 of 2 epochs *)
